@@ -1,0 +1,19 @@
+//go:build verif
+
+package orefafs
+
+// Contracts for the deductive verifier in /verif (govc): thread-modular clauses of C06, active
+// only in T-mode (fields guarded by a mutex are forgotten when that mutex is acquired).
+// Comments only; compiled only with the build tag "verif".
+
+// A node is entered in the path index only after the path has been seen absent under the index
+// write lock that is still held.
+//@ func (*OrefaFS).createNode
+//@   requires[C06] wheld(vfs.mu) && !dom(vfs.nodes, absPath)
+
+// Link and Rename enter a path in the index: the decision taken from what the index showed must
+// still be true under the index write lock that covers the store.
+//@ func (*OrefaFS).Link
+//@   at store orefafs.OrefaFS.nodes assert[C06] !dom(themap, key)
+//@ func (*OrefaFS).Rename
+//@   at store orefafs.OrefaFS.nodes#0 assert[C06] dom(themap, oAbsPath) && themap[oAbsPath] == oChild && (nChildOk == dom(themap, key))
